@@ -91,7 +91,7 @@ TipsBq == {f \in [HB -> {"g", "t1", "a3"}] : f["p"] = "a3" /\ f["v"] # "a3"}
 \* The complete state is printed (the replay driver computes quiescent macro-steps on it and the Go
 \* harness compares the projection tip / known / link / banned with the real nodes).
 Full(k, t, l, r, se, sy, b) ==
-    [tip |-> t, known |-> k, link |-> [n \in H |-> [p \in Nodes \ {n} |-> l[<<n, p>>]]],
+    [tip |-> t, htip |-> htip, known |-> k, link |-> [n \in H |-> [p \in Nodes \ {n} |-> l[<<n, p>>]]],
      round |-> r, seen |-> se,
      sync |-> [n \in H |-> [on |-> sy[n].on, src |-> sy[n].src, base |-> sy[n].base, top |-> sy[n].top, nxt |-> sy[n].nxt, rem0 |-> sy[n].rem0]],
      banned |-> {x[1] \o ">" \o x[2] : x \in b}]
